@@ -24,6 +24,8 @@ def run_property(prop, tier, repo, replay=None, evidence_dir=None, quiet=False):
         print(f'ANALYSIS-ERROR: property={prop} {e}')
         return 2
     folder = Folder(program)
+    from midolint.absint import install_fold_fallback
+    install_fold_fallback(folder)
     ctx = Ctx(prop, program, folder, tier)
     for name, fn in mod.RULES:
         ctx.run_rule(name, fn)
